@@ -66,6 +66,14 @@ def strategy(tier):
             p = draw(nh)
         else:
             p = draw(st.one_of(herm, herm, nh))
+        if v == "monomial_keys" and p["n_params"] >= 2:
+            # make sure a product key that contains a power (x**2*y) occurs, and that its order is reached
+            k_ = p["n_params"]
+            terms = dict(p["terms"])
+            first = sorted(s_ for s_ in terms if sum(order_key(s_)) == 1)
+            o = [2, 1] + [0] * (k_ - 2) if draw(st.booleans()) else [0] * (k_ - 2) + [1, 2]
+            terms.setdefault(",".join(map(str, o)), terms[first[0]])
+            p = dict(p, terms=terms, K=max(p["K"], 3))
         N = len(p["assign"])
         par = {
             "funcs": [draw(st.sampled_from(sorted(FUNCS))) for _ in range(p["n_params"])],
